@@ -358,6 +358,20 @@ var checkPoly = ev.Register("polynomial-regression", func(c *PolyCase) ev.Outcom
 			}
 		}
 	}
+	for k := 0; k+1 < len(res.Coefficients); k++ {
+		if res.Coefficients[k] == 0 {
+			later := false
+			for _, v := range res.Coefficients[k+1:] {
+				if v != 0 {
+					later = true
+				}
+			}
+			if later {
+				classes = append(classes, "exact-zero-interior-coefficient")
+				break
+			}
+		}
+	}
 	// F evaluates the polynomial with the returned coefficients
 	for _, x := range c.Probe {
 		want := ref.F64(polyBig(res.Coefficients, x))
@@ -607,10 +621,38 @@ func TestPolynomial(t *testing.T) {
 		n := rapid.IntRange(d+2, 40).Draw(rt, "n")
 		c := &PolyCase{Xs: drawXs(rt, n), Degree: d, W: drawWeights(rt, n)}
 		gd := rapid.IntRange(0, d).Draw(rt, "genDegree")
-		for k := 0; k <= gd; k++ {
-			c.Coef = append(c.Coef, rapid.Float64Range(-5, 5).Draw(rt, "coef"))
+		symmetric := rapid.IntRange(0, 3).Draw(rt, "symmetric") == 0
+		if symmetric {
+			// abscissae symmetric about 0 on a dyadic grid, no weights, and a sparse even or odd
+			// polynomial with small integer coefficients: the odd (or even) moments cancel exactly and
+			// the fit returns exact zeros for the absent terms
+			c.W = nil
+			c.Xs = c.Xs[:0]
+			half := n / 2
+			for i := half; i >= 1; i-- {
+				c.Xs = append(c.Xs, -float64(i)/4)
+			}
+			if n%2 == 1 {
+				c.Xs = append(c.Xs, 0)
+			}
+			for i := 1; i <= half; i++ {
+				c.Xs = append(c.Xs, float64(i)/4)
+			}
 		}
-		if rapid.IntRange(0, 2).Draw(rt, "noisy") == 0 {
+		parity := rapid.IntRange(0, 1).Draw(rt, "parity")
+		for k := 0; k <= gd; k++ {
+			v := rapid.Float64Range(-5, 5).Draw(rt, "coef")
+			if symmetric {
+				v = float64(rapid.IntRange(-3, 3).Draw(rt, "icoef"))
+				if k%2 != parity {
+					v = 0
+				}
+			} else if rapid.IntRange(0, 5).Draw(rt, "zeroCoef") == 0 {
+				v = 0
+			}
+			c.Coef = append(c.Coef, v)
+		}
+		if !symmetric && rapid.IntRange(0, 2).Draw(rt, "noisy") == 0 {
 			c.Noise = make([]float64, n)
 			for i := range c.Noise {
 				c.Noise[i] = rapid.Float64Range(-1, 1).Draw(rt, "noise")
